@@ -210,4 +210,65 @@ def gen_snip(repo=None):
     return '\n'.join(out) + '\n'
 
 
-GENERATORS = {'GenSnip': gen_snip}
+def gen_rubber(repo=None):
+    """GenRubber.v : which points rubberband hands to qhull, how the hull vertices are selected, and what
+    is interpolated.  Pins: hull_data = stack of self.x and y; ConvexHull(hull_data[segment]).vertices;
+    min_idx / max_idx (the constant added to argmax is EXTRACTED); the two slicing branches; the mask; and
+    np.interp(self.x, self.x[mask], y[mask])."""
+    tree, _ = _parse('pybaselines/classification.py', repo)
+    fns = [f for c in ast.walk(tree) if isinstance(c, ast.ClassDef) for f in c.body
+           if isinstance(f, ast.FunctionDef) and f.name == 'rubberband']
+    if len(fns) != 1:
+        raise TranslateError('rubberband: method not found (or not unique)')
+    body = _body_wo_doc(fns[0])
+    dumps = [_dump(s) for s in body]
+
+    def need(src, what):
+        if _stmt(src) not in dumps:
+            raise TranslateError(f'rubberband: statement not found / changed ({what}): {src.splitlines()[0]}')
+
+    need('hull_data = np.vstack((self.x, y)).T', 'points handed to qhull')
+    need('total_vertices = []', 'vertex accumulator')
+    need('mask = np.zeros(self._shape, dtype=bool)', 'mask')
+    need('mask[np.unique(total_vertices)] = True', 'mask from the kept vertices')
+    need("return baseline, {'mask': mask}", 'return')
+    loops = [s for s in body if isinstance(s, ast.For) and _dump(s.iter) == _expr('enumerate(total_sections[:-1])')]
+    if len(loops) != 1 or loops[0].orelse or _dump(loops[0].target) != _dump(ast.parse('i, left_idx = 0').body[0].targets[0]):
+        raise TranslateError('rubberband: segment loop not found')
+    lb = loops[0].body
+    if len(lb) != 5:
+        raise TranslateError(f'rubberband: segment loop has {len(lb)} statements, expected 5')
+    if _dump(lb[0]) != _stmt('vertices = ConvexHull(hull_data[left_idx:total_sections[i + 1]]).vertices'):
+        raise TranslateError('rubberband: the ConvexHull call changed')
+    if _dump(lb[1]) != _stmt('min_idx = vertices.argmin()'):
+        raise TranslateError('rubberband: min_idx changed')
+    st = lb[2]
+    if not (isinstance(st, ast.Assign) and len(st.targets) == 1 and _is_name(st.targets[0], 'max_idx')):
+        raise TranslateError('rubberband: max_idx assignment not found')
+    val = st.value
+    off = 0
+    if isinstance(val, ast.BinOp) and isinstance(val.op, (ast.Add, ast.Sub)):
+        off = _int(val.right) * (1 if isinstance(val.op, ast.Add) else -1)
+        val = val.left
+    if _dump(val) != _expr('vertices.argmax()'):
+        raise TranslateError('rubberband: max_idx is not vertices.argmax() + constant')
+    if _dump(lb[3]) != _stmt('if max_idx > min_idx:\n    vertices = vertices[min_idx:max_idx]\n'
+                             'else:\n    vertices = np.concatenate((vertices[min_idx:], vertices[:max_idx]))'):
+        raise TranslateError('rubberband: the vertex slicing changed')
+    if _dump(lb[4]) != _stmt('total_vertices.extend(vertices + left_idx)'):
+        raise TranslateError('rubberband: the vertex offset changed')
+    # the interpolation (no-lam branch)
+    ifs = [s for s in body if isinstance(s, ast.If) and _dump(s.test) == _expr('lam is not None and lam != 0')]
+    if len(ifs) != 1 or len(ifs[0].orelse) != 1 or \
+            _dump(ifs[0].orelse[0]) != _stmt('baseline = np.interp(self.x, self.x[mask], y[mask])'):
+        raise TranslateError('rubberband: the interpolation call changed')
+    return ('(* GENERATED by tools/translate.py from pybaselines/classification.py (rubberband) -- do not edit *)\n'
+            'From Coq Require Import ZArith.\nOpen Scope Z_scope.\n\n'
+            '(* max_idx = vertices.argmax() + rb_max_offset *)\n'
+            f'Definition rb_max_offset : Z := {zlit(off)}.\n'
+            '(* pinned shapes: hull points = vstack((self.x, y)).T per segment; interpolation = np.interp(self.x, self.x[mask], y[mask]) *)\n'
+            'Definition rb_points_are_x_y : bool := true.\n'
+            'Definition rb_interp_over_x_mask : bool := true.\n')
+
+
+GENERATORS = {'GenSnip': gen_snip, 'GenRubber': gen_rubber}
